@@ -1,12 +1,13 @@
 (* C07 -- code-faithful model of krrood/ormatic/eql_interface.py (EQLTranslator) over the relational
    algebra of SqlAlg.v, the encoding of a world of objects into tables, and the fragment F07.
    Mirrors: translate / translate_query / translate_and / translate_or / _collect_logical_parts /
-   _combine_logical_parts / translate_comparator / _is_attribute_equality_join /
-   _handle_attribute_equality_join / _translate_comparator_operand / _handle_contains_operator /
-   OperatorMapper / translate_attribute / _walk_attribute_chain / _apply_relationship_join / JoinManager.
-   Defects are kept: the chain of ANY variable starts at the unaliased DAO class of its type, so a second
-   variable of the selected type is the selected row (C07-a); a relationship-valued operand is its foreign
-   key column (C07-c); a bare variable operand is passed to the driver as a parameter. *)
+   _combine_logical_parts / translate_comparator / _check_relationship_operands / _is_relationship_valued /
+   _is_attribute_equality_join / _handle_attribute_equality_join / _translate_comparator_operand /
+   _handle_contains_operator / OperatorMapper / DomainValueExtractor / translate_attribute /
+   _walk_attribute_chain / _apply_relationship_join / JoinManager   (tree at f599ad3: after the C07 fix: commits).
+   Kept defects: NULL comparisons follow SQL (C07-b); a bare string column as condition is WHERE col (C07-h);
+   an equality join whose target table is already marked as joined is dropped silently (C07-i); related
+   entities are compared by foreign key, i.e. by identity, not by the classes' __eq__ (C07-j). *)
 From Coq Require Import List ZArith Bool Lia.
 From Krrood Require Import Base.Sx Orm.EqlToSqlSpec Orm.SqlAlg.
 Import ListNotations.
@@ -21,18 +22,15 @@ Definition encode (sc : schema) (w : world) : db := fun c => map row_of (instanc
 (* ---------- JoinManager + the statement under construction ---------- *)
 Record jm := {
   j_paths : list ((nat * Z) * nat);   (* aliases_by_path: (FROM element, relationship name) -> alias *)
-  j_tables : list Z;                  (* joined_tables *)
-  j_base : list (Z * nat);            (* unaliased DAO classes other than the root that occur in the statement *)
-  j_joins : list join;
-  j_loose : list nat;                 (* instances that are only implicitly in FROM (or joined from such) *)
-  j_invalid : bool                    (* a JOIN ... ON that mentions a table not yet in FROM: SQLite refuses *)
+  j_tables : list Z;                  (* joined_tables: targets of equality joins AND classes of aliased targets *)
+  j_joins : list join
 }.
-Definition jm0 : jm := Build_jm [] [] [] [] [] false.
+Definition jm0 : jm := Build_jm [] [] [].
 
 Inductive tr (A : Type) :=
 | ROk (a : A) (st : jm)
 | RReject            (* EQLTranslationError *)
-| RCrash             (* another exception escapes eql_to_sql *)
+| RCrash             (* another exception escapes eql_to_sql (no such path is known on the current tree) *)
 | RUnmod.            (* construct outside this model *)
 Arguments ROk {A}. Arguments RReject {A}. Arguments RCrash {A}. Arguments RUnmod {A}.
 
@@ -42,7 +40,6 @@ Fixpoint lookup_path (l : list ((nat * Z) * nat)) (src : nat) (a : Z) : option n
   | ((s, b), i) :: l' => if Nat.eqb s src && (a =? b) then Some i else lookup_path l' src a
   end.
 Definition memz (x : Z) (l : list Z) : bool := existsb (Z.eqb x) l.
-Definition memn (x : nat) (l : list nat) : bool := existsb (Nat.eqb x) l.
 
 (* _apply_relationship_join *)
 Definition alias_for (st : jm) (src : nat) (a tgt : Z) : nat * jm :=
@@ -50,11 +47,8 @@ Definition alias_for (st : jm) (src : nat) (a tgt : Z) : nat * jm :=
   | Some i => (i, st)
   | None =>
       let i := S (length (j_joins st)) in
-      let loose := memn src (j_loose st) in
-      (i, {| j_paths := ((src, a), i) :: j_paths st; j_tables := tgt :: j_tables st; j_base := j_base st;
-             j_joins := j_joins st ++ [JRel src a tgt];
-             j_loose := if loose then i :: j_loose st else j_loose st;
-             j_invalid := j_invalid st || loose |})
+      (i, {| j_paths := ((src, a), i) :: j_paths st; j_tables := tgt :: j_tables st;
+             j_joins := j_joins st ++ [JRel src a tgt] |})
   end.
 
 (* _walk_attribute_chain *)
@@ -77,21 +71,19 @@ Fixpoint twalk (sc : schema) (st : jm) (cur : nat) (ccls : Z) (chain : list Z) :
       end
   end.
 
-Definition has_parent (sc : schema) (c : Z) : bool :=
-  existsb (fun p => (fst p =? c) && negb (snd p =? c)) (sc_sub sc).
-Definition related (sc : schema) (c d : Z) : bool := subclass sc c d || subclass sc d c.
+(* issubclass(target_dao, anchor_dao) or issubclass(anchor_dao, target_dao) *)
+Definition related (sc : schema) (c d : Z) : bool := (c =? d) || subclass sc c d || subclass sc d c.
 
-(* the FROM element a chain starts from: the DAO class of the leaf variable's type *)
-Definition base_inst (sc : schema) (root : Z) (st : jm) (c : Z) : tr nat :=
-  if c =? root then ROk 0%nat st
-  else if related sc c root || has_parent sc c then RUnmod   (* unaliased tables of one joined-inheritance family; inherited columns of a foreign subclass table *)
-  else match assoc c (j_base st) with
-       | Some i => ROk i st
-       | None =>
-           let i := S (length (j_joins st)) in
-           ROk i {| j_paths := j_paths st; j_tables := j_tables st; j_base := (c, i) :: j_base st;
-                    j_joins := j_joins st ++ [JCross c]; j_loose := i :: j_loose st; j_invalid := j_invalid st |}
-       end.
+(* what the end of a chain is according to the mapped classes (every hop but the last a relationship) *)
+Fixpoint chain_kind (sc : schema) (c : Z) (chain : list Z) : option fkind :=
+  match chain with
+  | [] => None
+  | a :: rest => match field_kind sc c a, rest with
+                 | Some k, [] => Some k
+                 | Some (FRel t), _ :: _ => chain_kind sc t rest
+                 | _, _ => None
+                 end
+  end.
 
 Definition attr_name : Z := 1.      (* harness: "name" *)
 Definition attr_id_ : Z := 2.       (* harness: "id_" *)
@@ -99,17 +91,12 @@ Definition attr_id_ : Z := 2.       (* harness: "id_" *)
 Section Translate.
   Variable sc : schema.
   Variable vars : list (Z * Z).
-  Variable root : Z.
+  Variable sel : Z.                  (* the selected variable *)
+  Variable root : Z.                 (* its type *)
 
-  (* translate_attribute *)
+  (* translate_attribute: only chains of the selected variable; they start at the root table *)
   Definition tattr (st : jm) (v : Z) (chain : list Z) : tr sexpr :=
-    match assoc v vars with
-    | None => RReject
-    | Some c => match base_inst sc root st c with
-                | ROk i st' => twalk sc st' i c chain
-                | RReject => RReject | RCrash => RCrash | RUnmod => RUnmod
-                end
-    end.
+    if v =? sel then twalk sc st 0%nat root chain else RReject.   (* UnsupportedQueryTypeError *)
 
   (* _translate_comparator_operand *)
   Definition toperand (st : jm) (x : operand) : tr sexpr :=
@@ -122,18 +109,34 @@ Section Translate.
         | None => RReject
         | Some c =>
             match field_kind sc c attr_name, field_kind sc c attr_id_ with
-            | None, None => ROk (SConst VObjLit) st      (* DomainValueExtractor returns the sample entity itself *)
+            | None, None => RReject                      (* DomainExtractionError: the sample cannot be resolved to a row *)
             | _, _ => RUnmod                             (* looked up in the database by name / id_ *)
             end
         end
     end.
 
-  (* OperatorMapper.map_comparison_operator, with what SQLAlchemy does for == None / != None *)
+  (* _is_relationship_valued *)
+  Definition is_rel (x : operand) : bool :=
+    match x with
+    | OAttr v ch => match assoc v vars with
+                    | Some c => match chain_kind sc c ch with Some (FRel _) => true | _ => false end
+                    | None => false
+                    end
+    | _ => false
+    end.
+  Definition is_var (x : operand) : bool := match x with OVar _ => true | _ => false end.
+  (* _check_relationship_operands: true = passes *)
+  Definition rel_check (eqne : bool) (l r : operand) : bool :=
+    (negb (is_rel l) || ((is_rel r || is_var r) && eqne)) &&
+    (negb (is_rel r) || ((is_rel l || is_var l) && eqne)).
+
+  (* OperatorMapper.map_comparison_operator, with what SQLAlchemy does for == None / != None; None: ArgumentError,
+     re-raised as UnsupportedOperatorError *)
   Definition mk_cmp (op : cmpop) (l r : sexpr) : option spred :=
     match r, op with
     | SConst VNull, OEq => Some (SIsNull false l)
     | SConst VNull, ONe => Some (SIsNull true l)
-    | SConst VNull, _ => None            (* sqlalchemy.exc.ArgumentError: Only '=', '!=', ... can be used with None *)
+    | SConst VNull, _ => None
     | _, _ => Some (SCmp op l r)
     end.
 
@@ -149,22 +152,13 @@ Section Translate.
         | Some c1, Some c2, Some a1, Some a2 =>
             match field_kind sc c1 a1, field_kind sc c2 a2 with
             | Some (FRel _), Some (FRel _) =>
-                let '(target, tfk, other, afk) := if c1 =? root then (c2, a2, c1, a1) else (c1, a1, c2, a2) in
-                if memz target (j_tables st) then Some (ROk tt st)
-                else if target =? root then                  (* InvalidRequestError "Don't know how to join to <root>" when the statement is compiled *)
-                  match j_joins st with _ :: _ => Some RUnmod | [] =>
-                  Some (ROk tt {| j_paths := j_paths st; j_tables := target :: j_tables st; j_base := j_base st;
-                                  j_joins := j_joins st; j_loose := j_loose st; j_invalid := true |}) end
-                else if negb (other =? root) || related sc target root then Some RUnmod
-                else match assoc target (j_base st) with
-                     | Some _ => Some RUnmod
-                     | None =>
-                         let i := S (length (j_joins st)) in
-                         Some (ROk tt {| j_paths := j_paths st; j_tables := target :: j_tables st;
-                                         j_base := (target, i) :: j_base st;
-                                         j_joins := j_joins st ++ [JEq target tfk 0%nat afk];
-                                         j_loose := j_loose st; j_invalid := j_invalid st |})
-                     end
+                if (c1 =? root) || (c2 =? root) then
+                  let '(target, tfk, afk) := if c1 =? root then (c2, a2, a1) else (c1, a1, a2) in
+                  if related sc target root then Some RReject       (* self joins are not supported *)
+                  else if memz target (j_tables st) then Some (ROk tt st)   (* already "joined": nothing is added (C07-i) *)
+                  else Some (ROk tt {| j_paths := j_paths st; j_tables := target :: j_tables st;
+                                       j_joins := j_joins st ++ [JEq target tfk 0%nat afk] |})
+                else Some RReject                                   (* needs the selected variable on one side *)
             | _, _ => None
             end
         | _, _, _, _ => None
@@ -172,16 +166,19 @@ Section Translate.
     | _, _, _ => None
     end.
 
+  Definition is_eqne (op : cmpop) : bool := match op with OEq | ONe => true | _ => false end.
+
   (* translate_comparator for the six comparison operators *)
   Definition tcmp (st : jm) (op : cmpop) (l r : operand) : tr (option spred) :=
     match teqjoin st op l r with
     | Some (ROk _ st') => ROk None st'
     | Some RReject => RReject | Some RCrash => RCrash | Some RUnmod => RUnmod
     | None =>
+        if negb (rel_check (is_eqne op) l r) then RReject else
         match toperand st l with
         | ROk a st1 =>
             match toperand st1 r with
-            | ROk b st2 => match mk_cmp op a b with Some p => ROk (Some p) st2 | None => RCrash end
+            | ROk b st2 => match mk_cmp op a b with Some p => ROk (Some p) st2 | None => RReject end
             | RReject => RReject | RCrash => RCrash | RUnmod => RUnmod
             end
         | RReject => RReject | RCrash => RCrash | RUnmod => RUnmod
@@ -190,6 +187,7 @@ Section Translate.
 
   (* translate_comparator for operator.contains + _handle_contains_operator + map_contains_operator *)
   Definition tcontains (st : jm) (ct it : operand) : tr (option spred) :=
+    if is_rel ct || is_rel it then RReject else          (* contains is neither == nor != *)
     match ct, it with
     | OList cs, OAttr v chain =>
         match tattr st v chain with
@@ -203,7 +201,7 @@ Section Translate.
         end
     | OAttr v chain, OLit (VStr s) =>
         match tattr st v chain with
-        | ROk a st1 => ROk (Some (SLike a s)) st1
+        | ROk a st1 => ROk (Some (SInstrCol a s)) st1     (* instr(col, :s) > 0 *)
         | RReject => RReject | RCrash => RCrash | RUnmod => RUnmod
         end
     | OAttr v chain, _ =>
@@ -262,8 +260,8 @@ Definition translate (sc : schema) (q : query) : tres :=
       match q_cond q with
       | None => TReject                     (* translate_query(None): UnsupportedQueryTypeError *)
       | Some c =>
-          match tcond sc (q_vars q) root jm0 c with
-          | ROk p st => TOk {| s_root := root; s_joins := j_joins st; s_where := p; s_invalid := j_invalid st |}
+          match tcond sc (q_vars q) (q_sel q) root jm0 c with
+          | ROk p st => TOk {| s_root := root; s_joins := j_joins st; s_where := p; s_invalid := false |}
           | RReject => TReject | RCrash => TCrash | RUnmod => TUnmod
           end
       end
@@ -331,19 +329,19 @@ Fixpoint cond_ok (sc : schema) (w : world) (sel root : Z) (o : obj) (c : cond) :
   | _ => false
   end.
 
-(* syntactic part: comparisons of a chain of the selected variable with a scalar literal or another such chain,
+(* syntactic part: comparisons of a scalar-ended chain of the selected variable with a scalar literal or another such chain,
    membership of such a chain in a literal list of scalars, and_/or_ *)
-Definition operand_shape (sel : Z) (x : operand) : bool :=
+Definition operand_shape (sc : schema) (sel root : Z) (x : operand) : bool :=
   match x with
-  | OAttr v (_ :: _) => v =? sel
+  | OAttr v ch => (v =? sel) && match chain_kind sc root ch with Some FScalar => true | _ => false end
   | OLit c => scalar_val c
   | _ => false
   end.
-Fixpoint cond_shape (sel : Z) (c : cond) : bool :=
+Fixpoint cond_shape (sc : schema) (sel root : Z) (c : cond) : bool :=
   match c with
-  | CCmp _ (OAttr v ch) r => operand_shape sel (OAttr v ch) && operand_shape sel r
-  | CContains (OList cs) (OAttr v ch) => operand_shape sel (OAttr v ch) && forallb scalar_val cs
-  | CAnd p q | COr p q => cond_shape sel p && cond_shape sel q
+  | CCmp _ (OAttr v ch) r => operand_shape sc sel root (OAttr v ch) && operand_shape sc sel root r
+  | CContains (OList cs) (OAttr v ch) => operand_shape sc sel root (OAttr v ch) && forallb scalar_val cs
+  | CAnd p q | COr p q => cond_shape sc sel root p && cond_shape sc sel root q
   | _ => false
   end.
 
@@ -353,7 +351,7 @@ Fixpoint nodup_z (l : list Z) : bool :=
 Definition f07 (sc : schema) (q : query) (w : world) : bool :=
   match q_vars q, q_cond q with
   | [(v, root)], Some c =>
-      (v =? q_sel q) && cond_shape v c && nodup_z (map o_key w) && forallb (fun o => cond_ok sc w v root o c) (instances sc w root)
+      (v =? q_sel q) && cond_shape sc v root c && nodup_z (map o_key w) && forallb (fun o => cond_ok sc w v root o c) (instances sc w root)
   | _, _ => false
   end.
 
@@ -369,23 +367,13 @@ Fixpoint cond_operands (c : cond) : list operand :=
   end.
 Fixpoint has_not (c : cond) : bool :=
   match c with CNot _ => true | CAnd p q | COr p q => has_not p || has_not q | _ => false end.
-Fixpoint has_strop (c : cond) : bool :=      (* LIKE / instr / truth value of a column *)
+Fixpoint has_strop (c : cond) : bool :=      (* instr / truth value of a column *)
   match c with
   | CContains (OList _) _ => false
   | CContains _ _ | CTruth _ => true
   | CAnd p q | COr p q => has_strop p || has_strop q
   | CNot p => has_strop p
   | _ => false
-  end.
-(* kind of the end of a chain according to the schema *)
-Fixpoint chain_kind (sc : schema) (c : Z) (chain : list Z) : option fkind :=
-  match chain with
-  | [] => None
-  | a :: rest => match field_kind sc c a, rest with
-                 | Some k, [] => Some k
-                 | Some (FRel t), _ :: _ => chain_kind sc t rest
-                 | _, _ => None
-                 end
   end.
 Definition operand_rel (sc : schema) (vars : list (Z * Z)) (x : operand) : bool :=
   match x with
@@ -414,6 +402,37 @@ Fixpoint has_none_order (c : cond) : bool :=   (* <, <=, >, >= against a None li
   | CNot p => has_none_order p
   | _ => false
   end.
+(* open classes *)
+Definition operand_str (sc : schema) (vars : list (Z * Z)) (w : world) (x : operand) : bool :=
+  match x with
+  | OAttr v ch => match assoc v vars with
+                  | Some c => existsb (fun o => match walk w o ch with Ok (VStr _) => true | _ => false end) (instances sc w c)
+                  | None => false
+                  end
+  | _ => false
+  end.
+Fixpoint has_strtruth (sc : schema) (vars : list (Z * Z)) (w : world) (c : cond) : bool :=   (* a str column as condition *)
+  match c with
+  | CTruth x => operand_str sc vars w x
+  | CAnd p q | COr p q => has_strtruth sc vars w p || has_strtruth sc vars w q
+  | CNot p => has_strtruth sc vars w p
+  | _ => false
+  end.
+Fixpoint eqjoin_atoms (c : cond) : nat :=          (* == between attribute chains of two different variables *)
+  match c with
+  | CCmp OEq (OAttr v1 _) (OAttr v2 _) => if v1 =? v2 then 0 else 1
+  | CAnd p q | COr p q => eqjoin_atoms p + eqjoin_atoms q
+  | CNot p => eqjoin_atoms p
+  | _ => 0
+  end.
+Definition long_chain (x : operand) : bool := match x with OAttr _ (_ :: _ :: _) => true | _ => false end.
+Fixpoint has_relrel (sc : schema) (vars : list (Z * Z)) (c : cond) : bool :=   (* two related entities compared *)
+  match c with
+  | CCmp _ l r => operand_rel sc vars l && operand_rel sc vars r
+  | CAnd p q | COr p q => has_relrel sc vars p || has_relrel sc vars q
+  | CNot p => has_relrel sc vars p
+  | _ => false
+  end.
 Definition b2z (b : bool) (k : Z) : Z := if b then k else 0.
 Definition classes (sc : schema) (q : query) (w : world) : Z :=
   match q_cond q with
@@ -427,6 +446,9 @@ Definition classes (sc : schema) (q : query) (w : world) : Z :=
       + b2z (has_strop c) 16
       + b2z (existsb (fun x => match x with OVar _ => true | _ => false end) ops) 32
       + b2z (has_none_order c) 64
+      + b2z (has_strtruth sc (q_vars q) w c) 128
+      + b2z ((1 <=? Z.of_nat (eqjoin_atoms c)) && ((2 <=? Z.of_nat (eqjoin_atoms c)) || existsb long_chain ops)) 256
+      + b2z (has_relrel sc (q_vars q) c) 512
   end.
 
 (* what the harness asks per case: [model; spec; [f07; classes]] *)
